@@ -2,13 +2,19 @@
     Proved: at most one replier is bound and only a bound one receives requests; a refused replier
     is told and then closed (or its sink failed); the bound replier is unbound only by its own
     departure (stream end, or sink failure on ready / flush).
+    Also proved: no registration is lost or given two roles inside the router (the sockets taken
+    from the channel are, as a multiset, those waiting in the queue plus the bound, the refused and
+    the keyed ones), and the decision rule at the point where a replier's registration is taken:
+    bound exactly when nobody is bound, refused (rejection put in the slot, bound replier kept)
+    otherwise.
     PARTIAL: that the rejection completes (nothing stays "being dealt with" once the rejected
     sink accepts data) and that the next replier to register after a departure is bound are
     executable predicates (ReqRepSpec.obs_c10_ok / obs_c10_final_ok / obs_c10_rebind_justified)
     evaluated on every implementation trace; the client-side classification of the error code is
     read from the source by the translator (see the check's evidence). *)
 Require Import Selium.Base Selium.PubSub Selium.ReqRep Selium.ReqRepSpec Selium.P_ReqRep Selium.P_ReqRepOrder.
-Require Import Selium.P_ReqRepBind.
+Require Import Selium.P_ReqRepBind Selium.P_ReqRepReg.
+Require Import Coq.Sorting.Permutation.
 Open Scope N_scope.
 
 (** requests are only ever handed to a replier that was bound; a refused replier is never bound
@@ -54,6 +60,29 @@ Theorem c10_rejection_never_left_waiting : forall tr s e s',
 Proof. intros tr s e s' H1 H2 H3 H4. exact (proj1 (proj2 (rr_parks_only_when_drained tr s e s' H1 H2 H3 H4))). Qed.
 Print Assumptions c10_rejection_never_left_waiting.
 
+(** no registration is lost, none is given two roles: the sockets the router took from its
+    registration channel are, as a multiset, the ones still waiting in its queue, the repliers
+    that were bound, the repliers that were refused (for which
+    [c10_refused_replier_told_then_closed] continues) and the requestors that were given a key *)
+Theorem c10_registrations_placed_exactly_once : forall tr s, rrun rinit tr = Some s ->
+  Permutation (h_used (rgh s))
+    (map rlabel_of (rqueue s) ++ h_bound (rgh s) ++ h_rejected (rgh s) ++ map snd (h_keys (rgh s))).
+Proof. exact rr_registrations_placed_exactly_once. Qed.
+Print Assumptions c10_registrations_placed_exactly_once.
+
+(** "the next replier to register becomes the bound one": at the control point where a replier's
+    registration is taken from the queue (any state, reachable or not), it is bound exactly when
+    nobody is bound -- in particular after the previous one departed -- and otherwise it is
+    refused: its rejection goes into the slot and the bound replier stays bound *)
+Theorem c10_replier_decision : forall s l q s',
+  rctl s = RHandle -> rqueue s = QServer l :: q -> rinternal s = Some s' ->
+  rqueue s' = q /\
+  (server s = None -> server s' = Some l /\ h_bound (rgh s') = h_bound (rgh s) ++ [l] /\ b_err s' = b_err s) /\
+  (forall l', server s = Some l' ->
+     server s' = Some l' /\ h_rejected (rgh s') = h_rejected (rgh s) ++ [l] /\ b_err s' = Some (true, l)).
+Proof. exact rr_replier_decision. Qed.
+Print Assumptions c10_replier_decision.
+
 (** Non-vacuity: a second replier arrives while the first is bound and its sink is slow *)
 Example c10_example :
   exists s, rrun rinit
@@ -78,5 +107,5 @@ Example c10_example :
      VSink 0 OFlush ROk;
      VSink 0 OFlush ROk;
      VEnd false] = Some s
-  /\ server s = Some 0 /\ h_rejected (rgh s) = [1].
+  /\ server s = Some 0 /\ h_rejected (rgh s) = [1] /\ h_bound (rgh s) = [0] /\ h_used (rgh s) = [1; 0].
 Proof. eexists. vm_compute. repeat split; reflexivity. Qed.
